@@ -145,6 +145,36 @@ Theorem C16_ec_set_signature_total : forall sign_rsa sign_ec ks sa ha x y d data
 Proof. exact ec_set_signature_total. Qed.
 Print Assumptions C16_ec_set_signature_total.
 
+(* Re-signing.  SetSignature on a structure that already holds a signature (signed earlier, or
+   parsed from a manifest) gives exactly what it gives on any other structure: no field of the
+   old signature survives.  Signature, KeySignature (also the boot policy manifest's PMSE
+   element) and the key manifest (KeySignature and PubKeyHashAlg).  Together with
+   C16_sign_then_verify, which holds for every previous structure [ks], every signing step of a
+   sequence verifies *)
+Theorem C16_set_signature_independent_of_old : forall sign_rsa sign_ec sa ha sk data,
+  (forall m m', sig_set_signature sign_rsa sign_ec m sa ha sk data =
+                sig_set_signature sign_rsa sign_ec m' sa ha sk data) /\
+  (forall ks ks', ks_set_signature sign_rsa sign_ec ks sa ha sk data =
+                  ks_set_signature sign_rsa sign_ec ks' sa ha sk data) /\
+  (forall ks ks', km_set_signature sign_rsa sign_ec ks sa ha sk data =
+                  km_set_signature sign_rsa sign_ec ks' sa ha sk data).
+Proof. exact set_signature_independent_of_old. Qed.
+Print Assumptions C16_set_signature_independent_of_old.
+
+(* the recorded scheme is the scheme used and the recorded hash is the hash the signer was given:
+   the requested one, or the default of the scheme used now when a null algorithm is requested *)
+Theorem C16_set_signature_records_what_was_used : forall sign_rsa sign_ec m sa ha sk data m',
+  sig_set_signature sign_rsa sign_ec m sa ha sk data = Ok m' ->
+  let sc := detect_scheme sa sk in
+  let h := default_hash (scheme_default_hash sc) ha in
+  s_scheme m' = sc /\ s_ver m' = 16 /\ s_hashalg m' = h /\
+  (sc = c16_alg_rsapss \/ sc = c16_alg_rsassa -> s_data m' = sign_rsa sk sc h data) /\
+  (sc = c16_alg_ecdsa \/ sc = c16_alg_sm2 ->
+     exists w, rs_width (fst (sign_ec sk sc h data)) (snd (sign_ec sk sc h data)) = Some w /\
+               s_data m' = encode_rs w (fst (sign_ec sk sc h data)) (snd (sign_ec sk sc h data))).
+Proof. exact set_signature_records_what_was_used. Qed.
+Print Assumptions C16_set_signature_records_what_was_used.
+
 (* ---------------- BPM key hash in the key manifest ---------------- *)
 
 (* CBnT: success iff at least one entry carries the BPM-signing usage bit and every such entry
@@ -355,3 +385,11 @@ Example ex_psb : zlen ex_psb_hdr = 256 /\
   psp_validate ex_psb_verify [ex_psb_key] (splice 275 [255] ex_psb_raw) = Ok ex_psb_key /\
   psp_validate ex_psb_verify [ex_psb_key] (splice 100 [255] ex_psb_raw) = Err P_SIGCHECK.
 Proof. vm_compute. repeat split; reflexivity. Qed.
+
+(* re-signing: a structure holding an RSAPSS/SHA-384 signature, signed again with detection
+   (a 2048-bit modulus gives RSASSA) and a null hash, records SHA-256 *)
+Definition ex_old_sig : sigrec := mkSig c16_alg_rsapss 16 2048 c16_alg_sha384 (zrepeat 7 256).
+Example ex_resign :
+  sig_set_signature (fun _ _ _ _ => [1; 2]) (fun _ _ _ _ => (1, 1)) ex_old_sig 0 0 (PrivRSA (2 ^ 2047 + 1) 65537 0) [5] =
+  Ok (mkSig c16_alg_rsassa 16 16 c16_alg_sha256 [1; 2]).
+Proof. vm_compute. reflexivity. Qed.
